@@ -39,7 +39,7 @@ type ctx struct {
 }
 
 func main() {
-	mode := flag.String("mode", "sqlite", "sqlite|mysql|mysql-my57|mysql-my80|mysql-maria|mysql-history|postgres|postgres-ns|postgres-history|cli|realm|tattrs|views")
+	mode := flag.String("mode", "sqlite", "sqlite|mysql|mysql-my57|mysql-my80|mysql-maria|mysql-history|postgres|postgres-ns|postgres-history|cli|realm|tattrs|views|objects")
 	tier := flag.String("tier", "quick", "quick|thorough")
 	outDir := flag.String("out", "", "output directory")
 	flag.Parse()
@@ -48,10 +48,16 @@ func main() {
 		os.Exit(2)
 	}
 	pm := *mode
-	if pm == "realm" || pm == "tattrs" || pm == "views" {
+	if pm == "realm" || pm == "tattrs" || pm == "views" || pm == "objects" {
 		pm = "sqlite"
 	}
 	c := &ctx{w: out.New(*outDir), p: newProfile(pm), r: rng.FromEnv(0xC02)}
+	if *mode == "objects" {
+		// round 5: PostgreSQL enum objects (objects.go)
+		c.objects(*tier == "thorough")
+		c.w.Close()
+		return
+	}
 	if *mode == "views" {
 		// round 5: views (views.go)
 		c.views(*tier == "thorough")
